@@ -33,8 +33,9 @@ def gen(constants, genlen, num, seed, exhaustive=False):
     return r
 
 
-def drive_validate(rep, behaviours, constants, flags_of_interest, tag, seed):
+def drive_validate(rep, behaviours, constants, flags_of_interest, tag, seed, conf_override=None):
     conf = D.conf_from_constants(constants)
+    conf.update(conf_override or {})
     traces = []
     for i, g in enumerate(behaviours):
         ep = D.run_schedule(conf, g, seed=seed + i)
@@ -64,7 +65,9 @@ def drive_validate(rep, behaviours, constants, flags_of_interest, tag, seed):
     return counts
 
 
-def campaign(rep, tier, seed, tables, invariants, flags):
+def campaign(rep, tier, seed, tables, invariants, flags, variants=None):
+    """variants: {table name: [conf overrides]} -- the same generated behaviours are also driven through schedulers built
+    with the overridden configuration (e.g. another searcher) and judged by the same trace specification."""
     total = {}
     for name, constants in tables.items():
         r = A.run_mc(constants, invariants)
@@ -78,5 +81,9 @@ def campaign(rep, tier, seed, tables, invariants, flags):
         c = drive_validate(rep, g.gen, constants, flags, f"simulate:{name}", seed * 10000)
         for k, v in c.items():
             total[k] = total.get(k, 0) + v
+        for ov in (variants or {}).get(name, []):
+            c = drive_validate(rep, g.gen, constants, flags, f"simulate:{name}:{ov}", seed * 10000 + 77, conf_override=ov)
+            for k, v in c.items():
+                total[k] = total.get(k, 0) + v
     rep.extra["flags_seen_in_traces"] = total
     return total
